@@ -75,13 +75,17 @@ CHECKS = {
         category="proof",
     ),
     "C13": dict(
-        text=("Coq proof about the GENERATED __add__/__sub__/__iadd__/__isub__/replace/_get_other_type and Type.__add__: each is exactly the constructor applied to the set expression "
-              "(union / difference / substitution) of the operands' types, the in-place forms equal the pure ones, Type + Type builds {Generic, T, U}; operations are pure functions of "
-              "immutable operands in the model. On the implementation: every (typeset, type) single step, typeset-typeset steps, all 26x26 Type + Type and random law instances are "
-              "checked for result sets, untouched operands (snapshots), warnings for dropped relations, root; generated algebra vs real results on parent-closed results."),
-        ref="DESIGN.md section 6 (C13)",
-        note=TB_COMMON + "That the constructor returns exactly the given parent-closed set rests on C14 (exhaustive there, not proved in general). Operand non-mutation is by translation discipline + snapshots.",
-        technique="Coq proof (unfolding of translated methods to constructor applications) + exhaustive single-step oracle and differential test on the implementation",
+        text=("Coq theorems about the GENERATED __add__/__sub__/__iadd__/__isub__/replace/_get_other_type and Type.__add__ (theory/AlgebraTheory.v on top of C14's well-formedness theorem): "
+              "for EVERY relation table with the table facts and EVERY operands, whenever the resulting set of types is closed (contains Generic and every identity parent - the property's "
+              "'parent-closed results'), the operation does not raise, the result's types are exactly the union / difference / substitution, its root is Generic and it is a well-formed "
+              "typeset determined by that SET alone (same edges, styles and identity graph whatever the operands' order or history) - hence + is commutative, associative and idempotent, "
+              "a - t + t restores the types; replace of an absent type raises KeyError; the in-place forms equal the pure ones; Type + Type builds {Generic, T, U}. The table facts are "
+              "decided by computation on the table regenerated from types/*.py. Operations are pure functions of immutable operands in the model; that the implementation leaves its "
+              "operands untouched is checked by snapshots. On the implementation: every (typeset, type) single step, typeset-typeset steps, all 26x26 Type + Type and random law instances "
+              "are checked for result sets, untouched operands, warnings for dropped relations, root; generated algebra vs real results."),
+        ref="DESIGN.md section 3 (C13)",
+        note=TB_COMMON + "Operand non-mutation is by translation discipline (the translator rejects a store into an operand) + snapshots on the implementation; class objects ('all type classes untouched') are outside the model and are snapshot-checked only. The expression-depth quantifier (depth <= 4) is covered by the theorems compositionally (each step's result is again a typeset whose types are a set) and sampled on the implementation.",
+        technique="Coq proof (set laws for the generated algebra via the constructor well-formedness theorem, all tables with the table facts) + exhaustive single-step oracle and differential test on the implementation",
     ),
     "C19": dict(
         text=("Coq proof about the GENERATED output_graph code: what is handed to pydot is a fresh graph whose nodes are the typeset graph's nodes re-inserted sorted by name and whose "
